@@ -91,12 +91,31 @@ def register(R: Registry):
         n, key = nof(t), to_z3(o["key"], "int")
         return to_z3(r.fields["idx"], "int") == z3.If(key < 0, key + n, key)
 
-    R.add(f"{TREE}:Tree.__getitem__", prop="C09",
-          variants={"int": lambda S: dict(self=sym_tree(S, "t"), key=S.int("key"))},
-          raises={"IndexError": ("out-of-range-only", lambda E, v, o: z3.Or(to_z3(v["key"], "int") < -nof(v["self"]), to_z3(v["key"], "int") >= nof(v["self"])))},
-          ensures=[("in-range-accepted", lambda E, v, o: z3.And(to_z3(o["key"], "int") >= -nof(v["self"]), to_z3(o["key"], "int") < nof(v["self"]))),
-                   ("handle-on-this-tree-at-the-normalised-index", is_node)])
-    R.add(f"{TREE}:Tree.__getitem__#str", prop="C09") if False else None
+    def tree_slice_post(E, v, o):
+        from swcgeom.core.tree import Tree
+
+        t, h = v["self"], handles(v)
+        if h is None or h.cls_ is not Tree.Node or h.fixed.get("attach") is not t or h.fixed.get("names") is not t.fields["names"]:
+            return False
+        lo, st, cnt = slice_positions(o["key"], nof(t))
+        k = qj("k")
+        return z3.And(zint(h.n) == cnt, z3.ForAll([k], z3.Implies(z3.And(k >= 0, k < cnt), z3.Select(h.col("idx"), k) == lo + k * st)))
+
+    tgi_variants = {"int": lambda S: dict(self=sym_tree(S, "t"), key=S.int("key"))}
+    for nm in SLICES:
+        tgi_variants["slice " + nm] = (lambda S, _nm=nm: dict(self=sym_tree(S, "t"), key=slice_variants(S)[_nm]))
+    for k in KEYS:
+        tgi_variants["str " + k] = (lambda S, _k=k: dict(self=sym_tree(S, "t"), key=_k))
+    out_of_range = lambda E, v, o: z3.Or(to_z3(v["key"], "int") < -nof(v["self"]), to_z3(v["key"], "int") >= nof(v["self"]))
+    never = lambda E, v, o: False
+
+    R.add(f"{TREE}:Tree.__getitem__", prop="C09", variants=tgi_variants,
+          raises={"IndexError": ("out-of-range-only", by_form(out_of_range, never, never))},
+          ensures=[("in-range-accepted", by_form(lambda E, v, o: z3.And(to_z3(o["key"], "int") >= -nof(v["self"]), to_z3(o["key"], "int") < nof(v["self"])), None, None)),
+                   ("handle-on-this-tree-at-the-normalised-index", by_form(is_node, None, None)),
+                   ("slice-gives-the-handles-of-exactly-the-sliced-rows-in-order", by_form(None, tree_slice_post, None)),
+                   ("name-gives-the-column-itself", by_form(None, None, lambda E, v, o: v["result"] is col(v["self"], v["key"])))],
+          options=dict(OPTS))
 
     def str_variants():
         return {k: (lambda S, _k=k: dict(self=sym_tree(S, "t"), key=_k)) for k in KEYS}
@@ -200,6 +219,7 @@ def register(R: Registry):
     register_path(R, path_obj)
     register_handles(R, path_obj)
     register_branch(R, path_obj)
+    register_tree(R)
 
 
 
@@ -244,6 +264,17 @@ def slice_variants(S):
 
 SLICES = ["a:b", "a:", ":b", ":", "a:b:1", "a:b:2", "a:b:3", "::-1", "a:b:-1", "a:b:-2", "a::-1", ":b:-1"]
 
+
+def by_form(int_c, slice_c, str_c):
+    def f(E, v, o):
+        key = o["key"] if o is not None else v["key"]
+        if isinstance(key, slice):
+            return slice_c(E, v, o) if slice_c else True
+        if isinstance(key, str):
+            return str_c(E, v, o) if str_c else True
+        return int_c(E, v, o) if int_c else True
+
+    return f
 
 def handles(v):
     r = v["result"]
@@ -345,17 +376,6 @@ def register_path(R, path_obj):
         gi_variants["slice " + nm] = (lambda S, _nm=nm: dict(self=sym_path(S), key=slice_variants(S)[_nm]))
     for k in KEYS:
         gi_variants["str " + k] = (lambda S, _k=k: dict(self=sym_path(S), key=_k))
-
-    def by_form(int_c, slice_c, str_c):
-        def f(E, v, o):
-            key = o["key"] if o is not None else v["key"]
-            if isinstance(key, slice):
-                return slice_c(E, v, o) if slice_c else True
-            if isinstance(key, str):
-                return str_c(E, v, o) if str_c else True
-            return int_c(E, v, o) if int_c else True
-
-        return f
 
     R.add(f"{PATH}:Path.__getitem__", prop="C09", variants=gi_variants, requires=PRE,
           raises={"IndexError": ("only-an-integer-outside-[-len,len)", by_form(key_out_of_range, lambda E, v, o: False, lambda E, v, o: False))},
@@ -877,3 +897,129 @@ def register_branch(R, path_obj):
                    ("a-chain-0..n-1-of-type-3-with-the-given-coordinates-radius-given-or-1-window-is-all-of-it", from_xyzr_content),
                    ("argument-untouched", lambda E, v, o: z3.And(*[a == b for a, b in zip(v["xyzr"].cells, o["xyzr"].cells)]))],
           notes="the x/y/z(/r) columns of from_xyzr((n,4)) are numpy VIEWS onto the argument (xyzr[:, j] is a basic slice): stated content-wise only")
+
+
+# =====================================================================================================================
+# Tree: iteration, node(), soma(), segments, children of wrapped handles, keys
+def register_tree(R):
+    from swcgeom.core.compartment import Compartments
+    from swcgeom.core.tree import Tree
+
+    # ------------------------------------------------------------------ Tree.__iter__
+    def iter_post(E, v, o):
+        t, h = v["self"], handles(v)
+        if h is None or h.cls_ is not Tree.Node or h.fixed.get("attach") is not t or h.fixed.get("names") is not t.fields["names"]:
+            return False
+        k, n = qj("k"), nof(t)
+        return z3.And(zint(h.n) == n, z3.ForAll([k], z3.Implies(z3.And(k >= 0, k < n), z3.Select(h.col("idx"), k) == k)))
+
+    R.add(f"{TREE}:Tree.__iter__", prop="C09", setup=lambda S: dict(self=sym_tree(S, "t")),
+          ensures=[("one-handle-per-row-in-row-order", iter_post)], options=dict(OPTS))
+
+    # ------------------------------------------------------------------ Tree.node
+    def node_post(E, v, o):
+        r, t = v["result"], v["self"]
+        return isinstance(r, Obj) and r.cls is Tree.Node and r.fields.get("attach") is t and r.fields.get("names") is t.fields["names"] and r.fields.get("idx") is v["idx"]
+
+    R.add(f"{TREE}:Tree.node", prop="C09", setup=lambda S: dict(self=sym_tree(S, "t"), idx=S.int("i")),
+          ensures=[("handle-on-this-tree-at-the-given-position-as-given", node_post)])
+
+    # ------------------------------------------------------------------ Tree.soma
+    def not_soma(E, v, o):
+        t = v["self"]
+        return z3.And(to_z3(v["type_check"], "bool"), z3.Select(col(t, "type").arr, 0) != t.fields["types"].soma)
+
+    def soma_post(E, v, o):
+        r, t = v["result"], v["self"]
+        if not (isinstance(r, Obj) and r.cls is Tree.Node and r.fields.get("attach") is t and r.fields.get("idx") == 0):
+            return False
+        return z3.Not(not_soma(E, v, o))
+
+    R.add(f"{TREE}:Tree.soma", prop="C09",
+          variants={"checked": lambda S: dict(self=sym_tree(S, "t"), type_check=True), "unchecked": lambda S: dict(self=sym_tree(S, "t"), type_check=False),
+                    "flag-unknown": lambda S: dict(self=sym_tree(S, "t"), type_check=S.bool("tc"))},
+          raises={"ValueError": ("only-when-checking-and-row-0-is-not-of-soma-type", not_soma)},
+          ensures=[("handle-on-row-0-of-this-tree", soma_post)])
+
+    # ------------------------------------------------------------------ Tree.keys
+    R.add(f"{TREE}:Tree.keys", prop="C09", setup=lambda S: dict(self=sym_tree(S, "t", extra_cols=("level",))),
+          ensures=[("the-column-names-in-order", lambda E, v, o: isinstance(v["result"], PList) and v["result"].items == list(v["self"].fields["ndata"].items.keys()))])
+
+    # ------------------------------------------------------------------ Tree.get_compartments / get_segments
+    def segs_post(which):
+        def f(E, v, o):
+            t, res = v["self"], v["result"]
+            h = X._handles_of(res)
+            if not (isinstance(res, Obj) and res.cls is Compartments) or h is None or h.cls_ is not Tree.Compartment or h.fixed.get("attach") is not t:
+                return False
+            if "idx" not in h.vecs or h.vecs["idx"][0] != (2,):
+                return False
+            n, k = nof(t), qj("k")
+            pid, idc = col(t, "pid").arr, col(t, "id").arr
+            par, chi = z3.Select(h.vec("idx", 0), k), z3.Select(h.vec("idx", 1), k)
+            rng = z3.And(k >= 0, k < n - 1)
+            if which == "count":
+                return zint(h.n) == n - 1
+            if which == "pairs":  # segment k is the (parent, child) pair of row k+1, whatever the numbering
+                return z3.ForAll([k], z3.Implies(rng, z3.And(par == z3.Select(pid, k + 1), chi == z3.Select(idc, k + 1))))
+            if which == "rows":  # corollary for trees whose ids are their row numbers
+                i = qj("i")
+                ids_are_rows = z3.ForAll([i], z3.Implies(z3.And(i >= 0, i < n), z3.Select(idc, i) == i))
+                return z3.Implies(ids_are_rows, z3.ForAll([k], z3.Implies(rng, z3.And(chi == k + 1, par == z3.Select(pid, chi)))))
+
+        return f
+
+    for fn in ("get_compartments", "get_segments"):
+        R.add(f"{TREE}:Tree.{fn}", prop="C09", setup=lambda S: dict(self=sym_tree(S, "t")),
+              ensures=[("one-segment-per-non-root-row", segs_post("count")),
+                       ("segment-k-is-the-(parent-id,own-id)-pair-of-row-k+1-in-row-order", segs_post("pairs")),
+                       ("with-ids-as-row-numbers-segment-k-is-(parent-of-k+1,k+1)", segs_post("rows"))],
+              options=dict(OPTS))
+
+    # ------------------------------------------------------------------ Tree.Node.children, also through a wrapped (negative) handle
+    # Tree.node(i - n) yields a handle whose position is negative; its children are the rows naming the id AT THE WRAPPED ROW as parent.
+    # Ghost: crow(k) = row behind the k-th handle, crank(r) = place of row r in the result (both defined from the positions numpy's
+    # boolean-mask selection picked; definitions of fresh symbols).
+    crow = z3.Function("c9_crow", z3.IntSort(), z3.IntSort())
+    crank = z3.Function("c9_crank", z3.IntSort(), z3.IntSort())
+
+    def crow_def(E, v, o):
+        flt = getattr(E, "last_filter", None)
+        if flt is not None:
+            k = qj("k")
+            E.assume(z3.ForAll([k], z3.And(crow(k) == flt.kappa(k), crank(k) == flt.rho(k))))
+            E.assumptions.add("ghost definition: c9_crow(k) / c9_crank(r) = the position maps of the boolean-mask selection in Tree.Node.children")
+
+    def any_position(E, v, o):
+        n = v["self"]
+        i = to_z3(n.fields["idx"], "int")
+        return z3.And(i >= -nof(n.fields["attach"]), i < nof(n.fields["attach"]))
+
+    def children_post(which):
+        def f(E, v, o):
+            s_ = v["self"]
+            t = s_.fields["attach"]
+            n, i = nof(t), to_z3(s_.fields["idx"], "int")
+            idc, pidc = col(t, "id").arr, col(t, "pid").arr
+            me = z3.Select(idc, z3.If(i < 0, i + n, i))
+            h = handles(v)
+            if h is None or h.cls_ is not Tree.Node:
+                return False
+            if which == "handles-on-this-tree":
+                return h.fixed.get("attach") is t and h.fixed.get("names") is t.fields["names"]
+            m, idx = zint(h.n), h.col("idx")
+            k, k2, r = qj("k"), qj("k2"), qj("r")
+            if which == "every-handle-is-a-row-naming-the-wrapped-row's-id-as-parent":
+                return z3.ForAll([k], z3.Implies(z3.And(0 <= k, k < m), z3.And(0 <= crow(k), crow(k) < n, z3.Select(pidc, crow(k)) == me, z3.Select(idx, k) == z3.Select(idc, crow(k)))))
+            if which == "in-row-order-each-once":
+                return z3.ForAll([k, k2], z3.Implies(z3.And(0 <= k, k < k2, k2 < m), crow(k) < crow(k2)))
+            if which == "every-such-row-is-listed":
+                return z3.ForAll([r], z3.Implies(z3.And(0 <= r, r < n, z3.Select(pidc, r) == me), z3.And(0 <= crank(r), crank(r) < m, crow(crank(r)) == r)))
+
+        return f
+
+    R.add(f"{TREE}:Tree.Node.children", prop="C09",
+          setup=lambda S: dict(self=node_obj(S, sym_tree(S, "t", frozen=True))),
+          requires=[("handle-position-in-[-n,n)", any_position)], ghost_exit=crow_def,
+          ensures=[(w, children_post(w)) for w in ("handles-on-this-tree", "every-handle-is-a-row-naming-the-wrapped-row's-id-as-parent", "in-row-order-each-once", "every-such-row-is-listed")],
+          options=dict(OPTS, strict_index=False))
